@@ -85,6 +85,8 @@ func (g *FuncGen) specType(ty string, pkg *types.Package) (types.Type, Sort) {
 		return nil, SInt
 	case "any":
 		return types.NewInterfaceType(nil, nil), ""
+	case "struct{}":
+		return types.NewStruct(nil, nil), ""
 	}
 	if obj := types.Universe.Lookup(ty); obj != nil {
 		if tn, ok := obj.(*types.TypeName); ok {
